@@ -602,22 +602,22 @@ func (p *BPlan) firstPool(si int) int {
 // --- execution -------------------------------------------------------------------
 
 type bRun struct {
-	p       *BPlan
-	h       *core.Host
-	res     *core.Result
-	lastAt  int
-	inv     []int          // invocations per native
-	siteInv map[int]int    // invocations per site
-	lastRet map[int][]BVal // site -> what its last invocation returned
-	fired   *BFault        // the fault that fired
-	firedAt int            // site of the fault
-	firedG  int            // what the script last stored in G before the fault
-	handled bool
-	reDepth int
-	inRecurse bool
+	p          *BPlan
+	h          *core.Host
+	res        *core.Result
+	lastAt     int
+	inv        []int          // invocations per native
+	siteInv    map[int]int    // invocations per site
+	lastRet    map[int][]BVal // site -> what its last invocation returned
+	fired      *BFault        // the fault that fired
+	firedAt    int            // site of the fault
+	firedG     int            // what the script last stored in G before the fault
+	handled    bool
+	reDepth    int
+	inRecurse  bool
 	nativeVals map[int]goatlang.Value
 	handledNow bool // a nested error was handled during the current round
-	forms   map[string]bool
+	forms      map[string]bool
 }
 
 const bFaultMsg = "INJECTED-NATIVE-FAULT-7f3a"
